@@ -392,6 +392,189 @@ theorem nearest_valid_frame {β V : Type} (ops : NearOps β) (fuel : Nat) (view 
         rw [nearest_identity_on_valid ops fuel _ h]
       rw [this]
 
+/-! ### Invalid values are replaced by the nearest valid matrix: the write-back loop
+
+  `for row in range(len(A)): for col in range(row + 1): nearest[symb_sigma[row, col].name] = B[row, col]`
+  — every lower-triangle parameter of an invalid block ends up holding the entry of the repaired
+  matrix `B` **at its own position**, for every block size. -/
+
+/-- `(row, col)` is visited by the write-back loop iff `col ≤ row < n`. -/
+theorem mem_lowerTri (n row col : Nat) : (row, col) ∈ lowerTri n ↔ col ≤ row ∧ row < n := by
+  unfold lowerTri
+  simp only [List.mem_flatMap, List.mem_map, List.mem_range, Prod.mk.injEq]
+  constructor
+  · rintro ⟨r, hr, c, hc, rfl, rfl⟩; omega
+  · rintro ⟨h1, h2⟩; exact ⟨row, h2, col, by omega, rfl, rfl⟩
+
+/-- If every assignment under the key `a` writes `x` and there is at least one, `x` is what is left. -/
+theorem lastAssigned_of_consistent {V : Type} (asg : List (α × V)) (a : α) (x : V)
+    (hc : ∀ p ∈ asg, p.1 = a → p.2 = x) (hex : ∃ p ∈ asg, p.1 = a) :
+    lastAssigned asg a = some x := by
+  unfold lastAssigned
+  suffices h : ∀ acc : Option V, (acc = some x ∨ ∃ p ∈ asg, p.1 = a) →
+      asg.foldl (fun acc p => if p.1 = a then some p.2 else acc) acc = some x from h none (Or.inr hex)
+  clear hex
+  induction asg with
+  | nil =>
+    intro acc h
+    rcases h with h | ⟨p, hp, _⟩
+    · simpa using h
+    · cases hp
+  | cons p t ih =>
+    intro acc h
+    rw [List.foldl_cons]
+    apply ih (fun q hq => hc q (List.mem_cons_of_mem _ hq))
+    by_cases hpa : p.1 = a
+    · left; rw [if_pos hpa, hc p List.mem_cons_self hpa]
+    · rw [if_neg hpa]
+      rcases h with h | ⟨q, hq, hqa⟩
+      · exact Or.inl h
+      · rcases List.mem_cons.mp hq with rfl | hq
+        · exact absurd hqa hpa
+        · exact Or.inr ⟨q, hq, hqa⟩
+
+/-- A key that no assignment writes keeps no new value (frame of the write-back). -/
+theorem lastAssigned_none {V : Type} (asg : List (α × V)) (a : α) (h : ∀ p ∈ asg, p.1 ≠ a) :
+    lastAssigned asg a = none := by
+  unfold lastAssigned
+  induction asg with
+  | nil => rfl
+  | cons p t ih =>
+    rw [List.foldl_cons, if_neg (h p List.mem_cons_self)]
+    exact ih (fun q hq => h q (List.mem_cons_of_mem _ hq))
+
+/-- The assignments of one invalid block are exactly `(parameter at (row, col), B[row, col])` for the
+    lower-triangle positions. -/
+theorem mem_nearestStep {β V : Type} (subst : List (List α) → β) (near : β → Option (Nat → Nat → V))
+    (d : Dist α) (hj : d.joint = true) (B : Nat → Nat → V) (hB : near (subst d.var) = some B) (p : α × V) :
+    p ∈ nearestStep subst near d ↔
+      ∃ row col, col ≤ row ∧ row < matRows d.var ∧ p = (ent d.var row col, B row col) := by
+  unfold nearestStep
+  rw [if_pos hj, hB]
+  simp only [List.mem_map]
+  constructor
+  · rintro ⟨⟨row, col⟩, hm, rfl⟩
+    exact ⟨row, col, ((mem_lowerTri _ _ _).mp hm).1, ((mem_lowerTri _ _ _).mp hm).2, rfl⟩
+  · rintro ⟨row, col, h1, h2, rfl⟩
+    exact ⟨(row, col), (mem_lowerTri _ _ _).mpr ⟨h1, h2⟩, rfl⟩
+
+/-- **Invalid values are replaced by the nearest valid matrix** (collection level, any number and size
+    of blocks): if the block of `d` is repaired to `B` and every assignment of the whole call that
+    writes a parameter of `d`'s lower triangle writes the entry of `B` at that position (`hcons`:
+    holds when the parameters of the block are distinct and belong to no other repaired block, see
+    `nearest_valid_writes_nearest_of_distinct`), then after `nearest_valid_parameters` the parameter at
+    `(row, col)` holds `B[row, col]`. -/
+theorem nearest_valid_writes_nearest {β V : Type} (subst : List (List α) → β)
+    (near : β → Option (Nat → Nat → V)) (r : RVs α) (d : Dist α) (hd : d ∈ r) (hj : d.joint = true)
+    (B : Nat → Nat → V) (hB : near (subst d.var) = some B)
+    (hcons : ∀ p ∈ nearestAssignments subst near r, ∀ row col, col ≤ row → row < matRows d.var →
+      p.1 = ent d.var row col → p.2 = B row col)
+    (row col : Nat) (hc : col ≤ row) (hr : row < matRows d.var) :
+    lastAssigned (nearestAssignments subst near r) (ent d.var row col) = some (B row col) := by
+  apply lastAssigned_of_consistent
+  · intro p hp hpe; exact hcons p hp row col hc hr hpe
+  · refine ⟨(ent d.var row col, B row col), ?_, rfl⟩
+    unfold nearestAssignments
+    rw [List.mem_flatMap]
+    exact ⟨d, hd, (mem_nearestStep subst near d hj B hB _).mpr ⟨row, col, hc, hr, rfl⟩⟩
+
+/-- The lower-triangle parameters of the block are pairwise distinct. -/
+def TriDistinct (d : Dist α) : Prop :=
+  ∀ r c r' c', c ≤ r → r < matRows d.var → c' ≤ r' → r' < matRows d.var →
+    ent d.var r c = ent d.var r' c' → r = r' ∧ c = c'
+
+/-- … in particular for a block with distinct lower-triangle parameters that no other distribution's
+    repair writes (`d` itself may occur several times, as IOV blocks do). -/
+theorem nearest_valid_writes_nearest_of_distinct {β V : Type} (subst : List (List α) → β)
+    (near : β → Option (Nat → Nat → V)) (r : RVs α) (d : Dist α) (hd : d ∈ r) (hj : d.joint = true)
+    (B : Nat → Nat → V) (hB : near (subst d.var) = some B) (hinj : TriDistinct d)
+    (hother : ∀ d' ∈ r, d' ≠ d → ∀ p ∈ nearestStep subst near d', ∀ row col, col ≤ row →
+      row < matRows d.var → p.1 ≠ ent d.var row col)
+    (row col : Nat) (hc : col ≤ row) (hr : row < matRows d.var) :
+    lastAssigned (nearestAssignments subst near r) (ent d.var row col) = some (B row col) := by
+  apply nearest_valid_writes_nearest subst near r d hd hj B hB _ row col hc hr
+  intro p hp row' col' hc' hr' hpe
+  unfold nearestAssignments at hp
+  rw [List.mem_flatMap] at hp
+  obtain ⟨d', hd', hp⟩ := hp
+  by_cases hdd : d' = d
+  · subst hdd
+    obtain ⟨r2, c2, h1, h2, rfl⟩ := (mem_nearestStep subst near d' hj B hB p).mp hp
+    obtain ⟨e1, e2⟩ := hinj r2 c2 row' col' h1 h2 hc' hr' hpe
+    subst e1; subst e2; rfl
+  · exact absurd hpe (hother d' hd' hdd p hp row' col' hc' hr')
+
+/-- Read back as a full matrix: for a symmetric symbolic block and a symmetric repaired matrix, **every**
+    position `(i, j)` of the block — upper triangle included — holds `B[i, j]` after the call: the block
+    of the result is the nearest matrix itself (no variance is exchanged with a covariance). -/
+theorem nearest_valid_block_is_nearest {β V : Type} (subst : List (List α) → β)
+    (near : β → Option (Nat → Nat → V)) (r : RVs α) (d : Dist α) (hd : d ∈ r) (hj : d.joint = true)
+    (B : Nat → Nat → V) (hB : near (subst d.var) = some B) (hinj : TriDistinct d)
+    (hother : ∀ d' ∈ r, d' ≠ d → ∀ p ∈ nearestStep subst near d', ∀ row col, col ≤ row →
+      row < matRows d.var → p.1 ≠ ent d.var row col)
+    (hsym : ∀ i j, ent d.var i j = ent d.var j i) (hBsym : ∀ i j, B i j = B j i)
+    (i j : Nat) (hi : i < matRows d.var) (hjn : j < matRows d.var) :
+    lastAssigned (nearestAssignments subst near r) (ent d.var i j) = some (B i j) := by
+  rcases Nat.le_total j i with h | h
+  · exact nearest_valid_writes_nearest_of_distinct subst near r d hd hj B hB hinj hother i j h hi
+  · rw [hsym i j, hBsym i j]
+    exact nearest_valid_writes_nearest_of_distinct subst near r d hd hj B hB hinj hother j i h hjn
+
+/-- A parameter that no repaired block contains is not written at all. -/
+theorem nearest_valid_writes_frame {β V : Type} (subst : List (List α) → β)
+    (near : β → Option (Nat → Nat → V)) (r : RVs α) (a : α)
+    (h : ∀ d ∈ r, ∀ p ∈ nearestStep subst near d, p.1 ≠ a) :
+    lastAssigned (nearestAssignments subst near r) a = none := by
+  apply lastAssigned_none
+  intro p hp
+  unfold nearestAssignments at hp
+  rw [List.mem_flatMap] at hp
+  obtain ⟨d, hd, hp⟩ := hp
+  exact h d hd p hp
+
+/-- The dictionary `nearest_valid_parameters` returns: the value of parameter `s` is the one written
+    last under the symbol `s`, the given one if nothing was written. -/
+theorem applyAssignments_foldl {V : Type} (asg : List (Entry × V)) :
+    ∀ (values res : List (String × V)), applyAssignments values asg = .ok res → ∀ s : String,
+    res.lookup s = asg.foldl (fun acc p => if p.1 = Entry.sym s then some p.2 else acc) (values.lookup s) := by
+  induction asg with
+  | nil =>
+    intro values res h s
+    simp [applyAssignments] at h
+    subst h; rfl
+  | cons p rest ih =>
+    intro values res h s
+    obtain ⟨e, v⟩ := p
+    cases e with
+    | num q => simp [applyAssignments, Entry.name?] at h
+    | sym t =>
+      simp only [applyAssignments, Entry.name?] at h
+      rw [ih _ _ h s, List.foldl_cons, lookup_filter_append]
+      by_cases hts : t = s
+      · subst hts; simp
+      · have : Entry.sym t ≠ Entry.sym s := fun e => hts (by injection e)
+        simp [hts, this]
+
+/-- **The returned dictionary** (`Entry` instance, parameter names as keys): the value of parameter `s`
+    after `nearest_valid_parameters` is the one written last under the symbol `s` — by
+    `nearest_valid_block_is_nearest` the entry of the nearest matrix at the position of `s` — and the
+    given value if no repaired block contains `s`. -/
+theorem nearest_valid_result_lookup {V : Type} (asg : List (Entry × V)) (values res : List (String × V))
+    (h : applyAssignments values asg = .ok res) (s : String) :
+    res.lookup s = (lastAssigned asg (Entry.sym s)).or (values.lookup s) := by
+  rw [applyAssignments_foldl asg values res h s, foldl_assign_init]
+
+/-- The enumeration matters from dimension 3 on: pairing the lower-triangle parameters (row-major) with
+    the UPPER triangle of `B` in row-major order (= the lower triangle in column-major order) agrees
+    with the loop for 1×1 and 2×2 blocks and exchanges var(2) with cov(3,1) in a 3×3 block. -/
+def upperTri (n : Nat) : List (Nat × Nat) :=
+  (List.range n).flatMap fun r => ((List.range n).filter (r ≤ ·)).map fun c => (r, c)
+
+theorem write_back_order_witness :
+    ((lowerTri 2).zip (upperTri 2)).all (fun p => p.1 = p.2 ∨ p.1 = (p.2.2, p.2.1)) = true ∧
+    ((lowerTri 3).zip (upperTri 3)).all (fun p => p.1 = p.2 ∨ p.1 = (p.2.2, p.2.1)) = false := by
+  decide
+
 /-! ## parameters_sdcorr: var/cov → sd/corr, also with parameters shared between distributions
 
   `agree A` (decidable, evaluated by the driver on every generated case) = no parameter is assigned
@@ -568,5 +751,16 @@ example : SymBlocks exampleRvs := by
 example : (join exampleRvs ["a", "c"] (.template fun i j => some (.sym s!"N{i}{j}"))).toOption.map
     (fun r => ((getCov r.rvs "a" "c").toOption, (getCov r.rvs "c" "a").toOption, (getCov r.rvs "a" "a").toOption))
     = some (some (.sym "N01"), some (.sym "N01"), some (.sym "A")) := by decide
+
+/-- A 3×3 block with six distinct parameters, repaired to the symmetric `B[i,j] = 10·max(i,j) + min(i,j)`:
+    the block read back after the write-back is `B` itself (hypotheses of `nearest_valid_block_is_nearest`
+    are satisfiable; the conclusion is checked by evaluation). -/
+def exampleBlock3 : Dist Entry :=
+  ⟨["a", "b", "c"], "IIV", true, [.num 0, .num 0, .num 0],
+    [[.sym "A", .sym "AB", .sym "AC"], [.sym "AB", .sym "B", .sym "BC"], [.sym "AC", .sym "BC", .sym "C"]]⟩
+
+example : blockAfter (nearestAssignments (fun m => m) (fun _ => some fun i j => 10 * max i j + min i j)
+      [normal "d" "IIV" (.num 0) (.sym "D"), exampleBlock3]) exampleBlock3
+    = [[some 0, some 10, some 20], [some 10, some 11, some 21], [some 20, some 21, some 22]] := by decide
 
 end Pharmpy.C11
